@@ -4,6 +4,7 @@ package main
 
 import (
 	"fmt"
+	"go/constant"
 	"go/token"
 	"go/types"
 	"regexp"
@@ -97,6 +98,9 @@ func runE6(p *Program, sp *Spec, c *Collector) {
 	}
 	for _, rc := range t.RuleCoverage {
 		runRuleCoverage(p, sp, c, rc)
+	}
+	for _, pa := range t.Positional {
+		runPositional(p, sp, c, pa)
 	}
 }
 
@@ -2022,6 +2026,156 @@ func runResultOverwrite(p *Program, sp *Spec, c *Collector, nk NestedKillSpec) {
 			c.Ob(nk.Props, "E6.result-overwrite", key, Violated, nk.What+": "+g.Name()+" is the list "+results[g]+" hands out, and "+where+" (or a helper it calls) assigns it a value that does not build on what it already holds: what earlier occurrences contributed is replaced", p.InstrPos(bad), false)
 		} else {
 			c.Ob(nk.Props, "E6.result-overwrite", key, Discharged, g.Name()+" (handed out by "+results[g]+") is only ever extended by the callbacks", "", true)
+		}
+	}
+}
+
+// ---------------------------------------------------------------------------------------------
+// positional access: `x, ok := node.GetChild(k).(*parser.TContext)` (or the reflect.TypeOf(…).String() == "*parser.TContext"
+// form) asks whether the k-th child is a T. When the grammar lets a T stand at another position of the same rule as well
+// (formalParameters: '(' formalParameterList ')' — but also '(' receiverParameter ',' formalParameterList ')'), a function that
+// tests one position only silently skips the T of the other derivation.
+type PositionalSpec struct {
+	Props   []string `json:"props"`
+	Funcs   []string `json:"funcs"`
+	Grammar string   `json:"grammar"`
+	What    string   `json:"what"`
+}
+
+func runPositional(p *Program, sp *Spec, c *Collector, pa PositionalSpec) {
+	g := sp.G[pa.Grammar]
+	if g == nil {
+		c.Anchor(pa.Props, "E6: positional access: grammar %s does not resolve", pa.Grammar)
+		return
+	}
+	ctxRule := func(t types.Type) string {
+		_, n := namedTypeName(t)
+		if n == "" {
+			return ""
+		}
+		r, _, ok := g.RuleOfContext(n)
+		if !ok {
+			return ""
+		}
+		return r
+	}
+	for _, fn := range expandFuncs(p, c, pa.Funcs, pa.Props...) {
+		type test struct {
+			recvRule, target string
+			k                int
+			at               ssa.Instruction
+		}
+		var tests []test
+		getChild := func(v ssa.Value) (string, int, bool) {
+			for {
+				switch x := v.(type) {
+				case *ssa.MakeInterface:
+					v = x.X
+					continue
+				case *ssa.ChangeInterface:
+					v = x.X
+					continue
+				}
+				break
+			}
+			call, ok := v.(*ssa.Call)
+			if !ok {
+				return "", 0, false
+			}
+			name := ""
+			var recv ssa.Value
+			cc := call.Common()
+			if cc.IsInvoke() {
+				name, recv = cc.Method.Name(), cc.Value
+			} else if f := cc.StaticCallee(); f != nil && f.Signature.Recv() != nil && len(cc.Args) > 0 {
+				name, recv = f.Name(), cc.Args[0]
+				for {
+					fa, ok := recv.(*ssa.FieldAddr)
+					if !ok {
+						break
+					}
+					recv = fa.X
+				}
+			}
+			if name != "GetChild" || recv == nil || len(cc.Args) == 0 {
+				return "", 0, false
+			}
+			k, ok := constInt(cc.Args[len(cc.Args)-1])
+			if !ok {
+				return "", 0, false
+			}
+			r := ctxRule(recv.Type())
+			return r, int(k), r != ""
+		}
+		for _, b := range fn.Blocks {
+			for _, in := range b.Instrs {
+				switch x := in.(type) {
+				case *ssa.TypeAssert:
+					if r, k, ok := getChild(x.X); ok {
+						if t := ctxRule(x.AssertedType); t != "" {
+							tests = append(tests, test{r, t, k, in})
+						}
+					}
+				case *ssa.BinOp:
+					// reflect.TypeOf(node.GetChild(k)).String() == "*parser.TContext"
+					if x.Op != token.EQL && x.Op != token.NEQ {
+						continue
+					}
+					for _, pair := range [][2]ssa.Value{{x.X, x.Y}, {x.Y, x.X}} {
+						k, isConst := pair[1].(*ssa.Const)
+						if !isConst || k.Value == nil || k.Value.Kind() != constant.String {
+							continue
+						}
+						lit := constant.StringVal(k.Value)
+						if !strings.HasPrefix(lit, "*parser.") {
+							continue
+						}
+						sc, ok := pair[0].(*ssa.Call)
+						if !ok || !sc.Call.IsInvoke() || sc.Call.Method.Name() != "String" {
+							continue
+						}
+						tc, ok := sc.Call.Value.(*ssa.Call)
+						if !ok || tc.Call.StaticCallee() == nil || fullFuncName(tc.Call.StaticCallee()) != "reflect.TypeOf" {
+							continue
+						}
+						if r, kk, ok := getChild(tc.Call.Args[0]); ok {
+							if tr, _, ok2 := g.RuleOfContext(strings.TrimPrefix(lit, "*parser.")); ok2 {
+								tests = append(tests, test{r, tr, kk, in})
+							}
+						}
+					}
+				}
+			}
+		}
+		done := map[string]bool{}
+		for _, t := range tests {
+			id := fmt.Sprintf("%s.%s", t.recvRule, t.target)
+			if done[id] {
+				continue
+			}
+			done[id] = true
+			tested := map[int]bool{}
+			for _, u := range tests {
+				if u.recvRule == t.recvRule && u.target == t.target {
+					tested[u.k] = true
+				}
+			}
+			var missed []int
+			if _, hi := g.MinMax(t.recvRule, t.target); hi != 1 {
+				// a repeated child (pathElement*): "child 1" means the first of the list, not "the" T
+				continue
+			}
+			for i := 0; i < 8; i++ {
+				if g.ChildAt(t.recvRule, "", i)[t.target] && !tested[i] {
+					missed = append(missed, i)
+				}
+			}
+			key := fmt.Sprintf("positional:%s %s child %s", p.FuncKey(fn), t.recvRule, t.target)
+			if len(missed) > 0 && tested[t.k] && g.ChildAt(t.recvRule, "", t.k)[t.target] {
+				c.Ob(pa.Props, "E6.positional-access", key, Violated, fmt.Sprintf("%s: the function looks for a %s at child %d of a %s only; the grammar also puts one at child %v (another alternative of the rule), which is silently skipped — the rule's accessor %s() finds it wherever it stands", pa.What, t.target, t.k, t.recvRule, missed, strings.ToUpper(t.target[:1])+t.target[1:]), p.InstrPos(t.at), false)
+			} else {
+				c.Ob(pa.Props, "E6.positional-access", key, Discharged, fmt.Sprintf("every position at which a %s can stand in a %s is looked at", t.target, t.recvRule), p.InstrPos(t.at), true)
+			}
 		}
 	}
 }
